@@ -64,3 +64,19 @@ pub fn catch<T>(f: impl FnOnce() -> T) -> Result<T, String> {
 pub fn panic_json(msg: &str) -> Value {
     json!({ "panic": msg })
 }
+
+/// Drive a future to completion by polling it with a no-op waker (every future in the harness is
+/// ready after finitely many polls). Deliberately not futures::executor::block_on: the code under
+/// test calls that itself (Clock::now, send_order) and futures executors must not be nested.
+pub fn drive<F: std::future::Future>(f: F) -> F::Output {
+    use std::task::{Context, Poll};
+    let waker = futures::task::noop_waker();
+    let mut cx = Context::from_waker(&waker);
+    let mut f = std::pin::pin!(f);
+    for _ in 0..1_000_000 {
+        if let Poll::Ready(v) = f.as_mut().poll(&mut cx) {
+            return v;
+        }
+    }
+    panic!("future did not complete");
+}
